@@ -1,6 +1,6 @@
 /-
-C17 over the reals, part 3: `unproj ∘ proj = id` in the four sign quadrants and at the poles, `proj ∘ unproj = id` on the
-projected domain, range of `proj`.
+C17 over the reals, part 3: `unproj ∘ proj = id` in the four sign quadrants, and what `unproj ∘ proj` is beyond the pole
+threshold and at the poles.
 -/
 import HpxVerif.Lemmas.ProjReal2
 namespace Hpx.Proj
@@ -202,4 +202,8 @@ theorem unproj_proj_at_pole (lon lat : ℝ) (hlon : |lon| < 2 * π) (hlat : |lat
   rw [hP, Option.some.injEq, Prod.mk.injEq] at hp
   obtain ⟨rfl, rfl⟩ := hp
   rw [hu, sgn_mul_pos _ _ _ (by positivity)]
+
+#print axioms unproj_proj_full
+#print axioms unproj_proj_pole
+#print axioms unproj_proj_at_pole
 end Hpx.Proj
